@@ -35,6 +35,12 @@ class Workspace:
         self.shard_src = {}       # shard index -> text
         self.modranges = {}       # file path -> [(start,end,decl_id)]
         self.target = os.path.join(WORK, "target")
+        # the runner binary is named after the workspace: several workspaces share one target dir, and cargo
+        # does not re-uplift a fresh binary, so a common name would silently run another workspace's monitors
+        self.bin_name = "runner_" + "".join(c if c.isalnum() else "_" for c in name)
+        # crate names must be unique across workspaces too: cargo hashes path sources relative to the workspace
+        # root, so equally named members of two workspaces collide in a shared target dir
+        self.prefix = "s_" + "".join(c if c.isalnum() else "_" for c in name) + "_"
 
     def write(self, modules, features=ALL_FEATURES):
         """modules: list of (decl_id, module_text)."""
@@ -45,7 +51,7 @@ class Workspace:
             shards[i % n].append(m)
         members = []
         for k, mods in enumerate(shards):
-            cname = "shard%02d" % k
+            cname = "%s%02d" % (self.prefix, k)
             members.append(cname)
             text = ["#![allow(dead_code, unused_imports, non_snake_case, non_camel_case_types, clippy::all)]"]
             ranges = []
@@ -67,10 +73,10 @@ class Workspace:
         write_if_changed(os.path.join(self.dir, "runner", "src", "main.rs"), main)
         deps = "".join('%s = { path = "../%s" }\n' % (m, m) for m in members)
         write_if_changed(os.path.join(self.dir, "runner", "Cargo.toml"),
-                         '[package]\nname = "runner"\nversion = "0.1.0"\nedition = "2021"\n\n[dependencies]\nnvrt = { path = "%s/rt" }\n%s' % (VERIF, deps))
+                         '[package]\nname = "%s"\nversion = "0.1.0"\nedition = "2021"\n\n[[bin]]\nname = "%s"\npath = "src/main.rs"\n\n[dependencies]\nnvrt = { path = "%s/rt" }\n%s' % (self.bin_name, self.bin_name, VERIF, deps))
         # remove stale shards
         for e in os.listdir(self.dir):
-            if e.startswith("shard") and e not in members:
+            if (e.startswith("shard") or e.startswith("s_")) and e not in members:
                 shutil.rmtree(os.path.join(self.dir, e), ignore_errors=True)
         ws = '[workspace]\nresolver = "2"\nmembers = [%s]\n%s' % (", ".join('"%s"' % m for m in members + ["runner"]), PROFILE)
         write_if_changed(os.path.join(self.dir, "Cargo.toml"), ws)
@@ -198,11 +204,9 @@ def build_workspace(ws: Workspace, modules, features=ALL_FEATURES, max_rounds=5,
 
 
 def run_monitor(ws: Workspace, prop, tier, seed, outdir, parts=16, only=None, only_input=None, timeout=3400, extra_args=None):
-    exe = os.path.join(ws.target, "debug", "runner")
-    # the shared target dir holds the most recently linked runner; copy it per workspace to avoid clobbering
+    exe = os.path.join(ws.target, "debug", ws.bin_name)
     os.makedirs(outdir, exist_ok=True)
-    local_exe = os.path.join(ws.dir, "runner.bin")
-    shutil.copy2(exe, local_exe)
+    local_exe = exe
     jobs = []
     if only:
         parts = 1
